@@ -64,7 +64,9 @@ def make_entries(fmt, n, lens, rng):
         if fmt in ("k1", "bed"):
             out.append(f"c{num}\t{num}\t{int(num) + 5}\n")
         elif fmt == "bed6":
-            out.append(f"c{num}\t{num}\t{int(num) + 5}\tn{'x' * l}\t{'.' if i % 3 == 0 else i}\t{'+-'[i % 2]}\n")
+            # optional-int scores of DIFFERING widths (7, 13, 700, 9, 15000, …) and the '.' placeholder
+            score = '.' if i % 3 == 0 else str((7 + i) * 10 ** ((i * 2) % 5 if i % 2 else 0))
+            out.append(f"c{num}\t{num}\t{int(num) + 5}\tn{'x' * l}\t{score}\t{'+-'[i % 2]}\n")
         elif fmt == "bdg":
             # some values with 16-17 significant digits: parsing a row must not depend on the rows that share its buffer
             # … and exponent notation, leading dot, explicit sign: all valid float texts
@@ -75,9 +77,12 @@ def make_entries(fmt, n, lens, rng):
             blocks = ",".join(str(10 ** (l - 1) + j) for j in range(i % 3 + 1)) + ("," if i % 2 else "")
             out.append(f"c{num}\t{num}\t{int(num) + 5}\tn{i}\t{i}\t{'+-'[i % 2]}\t{num}\t{int(num) + 5}\t0,0,0\t{i % 3 + 1}\t{blocks}\t{blocks}\n")
         elif fmt == "narrowPeak":
-            out.append(f"c{num}\t{num}\t{int(num) + 5}\tp{i}\t{i}\t.\t{i}.5\t-1\t-1\t{i}\n")
+            out.append(f"c{num}\t{num}\t{int(num) + 5}\tp{i}\t{[i, i * 100 + 5, '.', 10 ** i][i % 4]}\t.\t{i}.5\t-1\t-1\t{i}\n")
         elif fmt == "vcf":
             out.append(f"c{num}\t{num}\t.\t{_w(rng, l)}\t{_w(rng, 1)}\t.\tPASS\t.\n")
+        elif fmt == "vcfinfo":     # INFO keys declared in the header: typed sub-columns (Integer, Float, Flag, String), some keys absent in some rows
+            info = [f"DP={10 ** (i % 3) + i};AF=0.{i + 1}5;DB;NM=g{i}", f"AF={i}.5;DP={i}", f"DP={i + 7};NM=xy", f"DB;DP={i}00;AF=1e-{i % 3 + 1}"][i % 4]
+            out.append(f"c{num}\t{num}\t.\t{_w(rng, l)}\t{_w(rng, 1)}\t.\tPASS\t{info}\n")
         elif fmt in ("vcfgt", "vcfpgt"):
             sep = "|" if fmt == "vcfpgt" or i % 2 else "/"
             out.append(f"c{num}\t{num}\t.\t{_w(rng, l)}\t{_w(rng, 1)}\t.\tPASS\t.\tGT\t0{sep}1\t{i % 2}{sep}{(i + 1) % 2}\n")
@@ -102,6 +107,10 @@ def make_entries(fmt, n, lens, rng):
             raise ValueError(fmt)
     if fmt == "vcf":
         header = "##fileformat=VCFv4.2\n#CHROM\tPOS\tID\tREF\tALT\tQUAL\tFILTER\tINFO\n"
+    if fmt == "vcfinfo":
+        header = ("##fileformat=VCFv4.2\n##INFO=<ID=DP,Number=1,Type=Integer,Description=\"d\">\n##INFO=<ID=AF,Number=1,Type=Float,Description=\"a\">\n"
+                  "##INFO=<ID=DB,Number=0,Type=Flag,Description=\"b\">\n##INFO=<ID=NM,Number=1,Type=String,Description=\"n\">\n"
+                  "#CHROM\tPOS\tID\tREF\tALT\tQUAL\tFILTER\tINFO\n")
     if fmt in ("vcfgt", "vcfpgt"):
         header = "##fileformat=VCFv4.2\n#CHROM\tPOS\tID\tREF\tALT\tQUAL\tFILTER\tINFO\tFORMAT\tS0\tS1\n"
     if fmt == "sam" and n % 2 == 0:
@@ -127,7 +136,7 @@ def _buffer_type(fmt):
         return db.Bed12Buffer, ".bed"
     if fmt == "narrowPeak":
         return db.NarrowPeakBuffer, ".narrowPeak"
-    if fmt == "vcf":
+    if fmt in ("vcf", "vcfinfo"):
         return VCFBuffer, ".vcf"
     if fmt in ("vcfgt", "vcfpgt"):
         from bionumpy.io.vcf_buffers import VCFMatrixBuffer, PhasedVCFMatrixBuffer
@@ -216,7 +225,7 @@ def cases(tier, rng):
                 yield {"op": "entries", "fmt": fmt if fmt != "fasta80" else "fasta", "header": header, "ents": ents, "gz": gz, "nl": nl, "crlf": crlf,
                        "lazy": lazy, "k": k, "longest": max(len(e) for e in ents) + 2}
     # --- entry level: formats x gz x nl x crlf x lazy x k
-    fmts = ["bed", "bed6", "bed12", "bdg", "narrowPeak", "vcf", "vcfgt", "vcfpgt", "sam", "gtf", "fastq", "fasta2line", "fasta", "fasta3"]
+    fmts = ["bed", "bed6", "bed12", "bdg", "narrowPeak", "vcf", "vcfinfo", "vcfgt", "vcfpgt", "sam", "gtf", "fastq", "fasta2line", "fasta", "fasta3"]
     for fmt in fmts:
         for n in ((0, 1, 2, 3, 4) if big else (1, 2, 3)):
             lens_choices = list(itertools.product((1, 2, 5), repeat=min(n, 2))) if n else [()]
